@@ -289,6 +289,8 @@ class Property(Entity):
         vtype = self._check_new_value_types(data)
 
         arr = np.array(data, dtype=vtype).flatten('C')
+        # refused before the stored values are resized
+        util.check_storable_text(arr)
         dataset = self._h5dataset
         src_len = len(self.values)
         dlen = len(arr)
